@@ -58,7 +58,7 @@ def expr_src(e, nm):
 
 def uses(prog, opname):
     for s in prog:
-        if s["k"] == "asg" and s["e"][0] == opname:
+        if s["k"] in ("asg", "pasg") and s["e"][0] == opname:
             return True
         if uses(s["t"], opname) or uses(s["f"], opname):
             return True
@@ -72,6 +72,9 @@ def block_src(b, nm, ind):
         k = s["k"]
         if k == "asg":
             out.append(f"{pad}{nm[s['v']]} = {expr_src(s['e'], nm)}")
+        elif k == "pasg":
+            s2 = s["t"][0]
+            out.append(f"{pad}{nm[s['v']]}, {nm[s2['v']]} = {expr_src(s['e'], nm)}, {expr_src(s2['e'], nm)}")
         elif k == "if":
             out.append(f"{pad}if {nm[s['v']]} > 0:")
             out += block_src(s["t"], nm, ind + 1)
@@ -220,4 +223,4 @@ def has_kind(b, kind):
 
 
 def depth(b):
-    return max([0] + [1 + max(depth(s["t"]), depth(s["f"])) for s in b if s["k"] != "asg" and s["k"] != "brk"])
+    return max([0] + [1 + max(depth(s["t"]), depth(s["f"])) for s in b if s["k"] not in ("asg", "pasg", "brk")])
